@@ -121,6 +121,22 @@ def rule_D9_seq(tree: Tree) -> RuleResult:
         r.instances += 1
         sorts = [n for n in body_walk(f.node) if isinstance(n, ast.Call) and isinstance(n.func, ast.Attribute) and n.func.attr == "sort"]
         raw = [src(s, 80) for s in sorts if any(k.arg == "key" and ".seq" in src(k.value) and not _reduced_mod32(k.value) and "-" not in src(k.value) for k in s.keywords)]
+        # a wrap-aware (relative) sort key needs a base that precedes every pending segment: the direction's expected sequence number,
+        # never an element of the buffer being sorted (its first element is merely the first to *arrive*)
+        r.instances += 1
+        badbase = []
+        for sc in sorts:
+            for k in sc.keywords:
+                if k.arg == "key" and ".seq" in src(k.value) and "-" in src(k.value):
+                    names = {x.id for x in ast.walk(k.value) if isinstance(x, ast.Name)}
+                    for a in body_walk(f.node):
+                        if isinstance(a, ast.Assign) and dotted(a.targets[0]) in names and "_packet_buffer[" in src(a.value):
+                            badbase.append(src(a, 80))
+                    if "_packet_buffer[" in src(k.value):
+                        badbase.append(src(k.value, 80))
+        r.ob(not badbase, Finding("D9s", f"session:{qn}:seq-sort-base",
+                                  f"{qn}: the relative sort key takes its base from the buffer being sorted (`{badbase[0] if badbase else ''}`): when the first buffered segment was overtaken "
+                                  f"(arrival S2 S1 S3) its predecessors wrap to the far end and the run is framed out of order", f.module.line(f.node)))
         r.ob(not raw, Finding("D9s", f"session:{qn}:seq-sort-absolute",
                               f"{qn}: `{raw[0] if raw else ''}` orders buffered segments by absolute sequence number: after a wrap the segment with the "
                               f"numerically small number sorts before its predecessors", f.module.line(f.node)))
